@@ -6,7 +6,7 @@ from bvt.histworld import run_history
 ID = 'C15'
 LEVEL = 'exploration'
 RULE = (
-    'Generated call histories: dispatches and bursts (payload-driven handler durations around the 0.1 s poll period, '
+    'Three quarters generated call histories on one bus, one quarter multi-bus engine scenarios (cross-bus in-handler awaits, forwarding, histories of 2-3 events) with wait_until_idle() calls from concurrent actors. Call histories: dispatches and bursts (payload-driven handler durations around the 0.1 s poll period, '
     'nested fire-and-forget/awaited children), time advances around the poll period, wait_until_idle() calls started '
     'as tasks while the history continues, and fault histories: raising handlers, firing event timeouts, rejected '
     'bursts (queue/backlog limits) incl. events nobody handles and re-dispatch of rejected event objects, small-N '
@@ -29,9 +29,70 @@ op = st.one_of(
     st.sampled_from([(0.05, 0.07), (0.11, 0.15), (0.09, 0.13)]).flatmap(lambda dt: st.tuples(st.just('burst'), st.integers(1, 2), st.just(dt[0]), st.integers(1, 2), st.just(True), st.booleans(), st.just(dt[1])).map(list)),
     st.tuples(st.just('burstnh'), st.sampled_from([1, 3, 51, 101])).map(list),
     st.tuples(st.just('retry'), st.sampled_from([1, 3, 60])).map(list),
-    st.tuples(st.just('again'), st.sampled_from([1, 2])).map(list),
+    st.tuples(st.just('again'), st.sampled_from([1, 2]), st.booleans()).map(list),
 )
 scs = st.fixed_dictionaries({'N': st.sampled_from([None, 50, 50, 2, 3]), 'maxdepth': st.sampled_from([2, 2, 2, 4]), 'ops': st.lists(op, min_size=2, max_size=8), 'cap': st.just(400)})
+
+
+# second generator: multi-bus scenarios on the scenario engine (cross-bus in-handler awaits, forwarding, small histories) with
+# wait_until_idle() calls from concurrent actors; no timeouts here (the call-history world above covers those)
+from bvt.gen import Profile, scenario  # noqa: E402
+
+P_ENGINE = Profile(min_buses=2, max_buses=3, par=0.15, fwd=0.3, hist=[None, 1, 1, 2, 3], maxdepth=[2], wild=0.1, raises=0.1, cap=40, max_actors=3, max_actor_ops=6, actor_ops=['disp', 'disp', 'burst', 'sleep', 'sleep', 'idle', 'idle', 'idle', 'yield'], modes=['await', 'await', 'await', 'later', 'ff'], burst=[2, 3], durs=[0.05, 0.1, 0.1, 0.25, 0.3], sync=0.1, min_handlers=2)
+
+
+def _run_engine_case(sc):
+    from bvt.engine import fmt_trace, run_scenario
+    from bvt.facts import Facts
+
+    out = run_scenario(sc)
+    F = Facts(sc, out)
+    viol, cl = [], ['engine-scenario']
+    busy_call = False
+    begun = {}
+    for r in out['trace']:
+        if r['k'] == 'a-idle-begin':
+            begun[(r['actor'], r['bus'])] = r['i']
+            if r.get('busy'):
+                busy_call = True
+        if r['k'] == 'a-idle-end' and r.get('timeout') is None and not r.get('exc') and r.get('pending'):
+            b0 = begun.get((r['actor'], r['bus']), r['i'])
+            # only events the bus had accepted BEFORE the call was made are promised to be finished
+            early = [ev for ev in r['pending'] if any(i < b0 for i in F.enq.get((r['bus'], ev), []))]
+            if early:
+                viol.append(('C15.a', f'wait_until_idle() on {r["bus"]} (called at idx {b0}) returned at idx {r["i"]} (t={r["t"]:g}) while events {early[:8]} accepted by that bus before the call had not finished their handlers there'))
+    hang = out.get('hang')
+    if hang:
+        blocked = [a for a in (hang.get('actors') or {}).values() if a.get('blocked') and a['blocked'][0] == 'idle']
+        if blocked and not hang.get('handlers'):
+            viol.append(('C15.b', f'wait_until_idle() did not return although nothing was running: {hang}'))
+        cl.append('hang:' + str(hang.get('kind')))
+    if busy_call:
+        cl.append('idle-call-on-busy-bus')
+    if any(b.get('hist') in (2, 3) for b in sc['buses']):
+        cl.append('small-history')
+    if any(r['k'] == 'aw-begin' and F.bidx.get(r['by'][0]) is not None and any(bb != r['by'][0] for (bb, e) in F.enq if e == r['ev']) for r in out['trace']):
+        cl.append('cross-bus-inline-await')
+    return {'viol': viol[:1], 'nontrivial': busy_call, 'classes': cl, 'hang': bool(hang), 'log': fmt_trace(out)}
+
+
+def enumerate_cases(tier, seed):
+    """A small enumerated family built to reach one deep shape: a handler on A awaits a child on an idle bus B (processed
+    inline on B), the child's handler awaits a grandchild on B (with a tiny history the started child is evicted), and another
+    actor calls B.wait_until_idle() at every offset while that is going on."""
+    for hist in (1, 2, None):
+        for warm in (True, False):
+            for off in (0.0, 0.05, 0.12, 0.2, 0.25, 0.3, 0.45):
+                for inner in ('await', 'ff'):
+                    yield {
+                        'buses': [{'par': False, 'hist': None, 'rank': 1}, {'par': False, 'hist': hist, 'rank': 2}], 'fwd': [],
+                        'handlers': [
+                            {'bus': 0, 'pat': 0, 'kind': 'async', 'prog': [['disp', 1, 1, 'await']], 'ret': 'idx'},
+                            {'bus': 1, 'pat': 1, 'kind': 'async', 'prog': [['sleep', 0.1], ['disp', 1, 2, inner], ['sleep', 0.3]], 'ret': 'idx'},
+                            {'bus': 1, 'pat': 2, 'kind': 'async', 'prog': [['sleep', 0.05]], 'ret': 'idx'},
+                        ],
+                        'actors': [[['disp', 0, 0]], [['sleep', off], ['idle', 1, None]]], 'maxdepth': 2, 'cap': 40, 'warm': warm,
+                    }
 
 
 def budget(tier):
@@ -39,10 +100,12 @@ def budget(tier):
 
 
 def strategy(tier):
-    return scs
+    return st.integers(0, 2).flatmap(lambda k: scenario(P_ENGINE) if k == 0 else scs)
 
 
 def run_case(sc):
+    if 'buses' in sc:
+        return _run_engine_case(sc)
     out = run_history(sc)
     viol = [v for v in out['viol'] if v[0] in ('C15.a', 'C15.b')]
     if out.get('hang'):
